@@ -25,7 +25,10 @@ pub struct Jail {
 
 impl Jail {
     pub fn new(tag: &str) -> Jail {
-        let root = crate::ctx::run_dir().join(format!("c12-{}-{}", tag, std::process::id())).join("jail");
+        // a memory file system if there is one: a case is a few dozen mkdir / unlink calls, which a journalling disk file system makes slow
+        let shm = std::path::Path::new("/dev/shm");
+        let base = if shm.is_dir() && std::fs::create_dir_all(shm.join(crate::ctx::run_dir().file_name().unwrap())).is_ok() { shm.join(crate::ctx::run_dir().file_name().unwrap()) } else { crate::ctx::run_dir() };
+        let root = base.join(format!("c12-{}-{}", tag, std::process::id())).join("jail");
         Jail { root }
     }
     pub fn target(&self) -> PathBuf {
